@@ -275,6 +275,9 @@ func run(eventHandler EventHandler, listeners []*listener, options *Options, add
 	switch eng.eventHandler.OnBoot(e) {
 	case None, Close:
 	case Shutdown:
+		// Nothing has been started, put the engine into the shutdown state so that
+		// the Engine handed to OnBoot doesn't pass for a running one.
+		eng.inShutdown.Store(true)
 		return nil
 	}
 
